@@ -208,8 +208,16 @@ Definition spec_gives_up (c : mcase) : bool :=
 
 (* ---- C10 monitor: the supervisor takes its children along ------------------------------------------------
    whenever the observed supervisor terminated through an action of its machine (any reason except a
-   failed Spawn, whose error leaves ProcessRun directly), no child it started is still alive *)
+   failed Spawn, whose error leaves ProcessRun directly), no child it started is still alive.
+   Guard (see C10_sup_ofo_start_during_shutdown_refuted): supOFO accepts StartChild/AddChild/EnableChild
+   while it is shutting down; such a child is not waited for and dies through its parent link only. *)
+Definition started_in_shutdown (c : mcase) : bool :=
+  existsb (fun o => match o_call o with
+                    | CStarted _ _ _ => shutting (mc_cfg c) (o_state o)
+                    | _ => false
+                    end) (mc_trace c).
 Definition spec_no_orphans (c : mcase) : bool :=
+  started_in_shutdown c ||
   forallb (fun sn => sn_alive sn || (sn_reason sn =? RSpawnErr) || is_nil (sn_children sn)) (mc_snaps c).
 
 (* ---- premises: non-vacuity counters -------------------------------------------------------------------- *)
@@ -221,4 +229,69 @@ Definition premise_quiescent (c : mcase) : bool :=
   end.
 Definition premise_gave_up (c : mcase) : bool := gave_up c.
 Definition premise_terminated (c : mcase) : bool :=
+  negb (started_in_shutdown c) &&
   existsb (fun sn => negb (sn_alive sn) && negb (sn_reason sn =? RSpawnErr)) (mc_snaps c).
+
+(* ==== end-to-end observations (sub-command e2e: real node, real act.Supervisor, instrumented children) =====
+   ec_ops    : the exit messages in the order the supervisor took them from its mailbox and the management
+               calls in the order it executed them (pids renumbered in spawn order, as the model allocates)
+   ec_spawns : every child start the supervisor made, in order: (pid, spec name)
+   ec_obs    : at quiescent points: number of operations processed so far, is the supervisor alive, the
+               termination reason its monitor saw, Supervisor.Children() as (spec, running instances),
+               how many of the children it ever started are alive although it is gone, did the poll settle *)
+Record eobs := mk_eobs { e_nops : nat; e_alive : bool; e_reason : Z; e_view : list (Z * nat);
+                         e_orphans : nat; e_settled : bool }.
+Arguments mk_eobs _%nat _ _%Z _ _%nat _.
+Record ecase := mk_ecase { ec_cfg : config; ec_children : list (Z * bool); ec_ops : list op;
+                           ec_spawns : list (Z * Z); ec_obs : list eobs }.
+
+Definition spawns_of (ev : list event) : list (Z * Z) :=
+  flat_map (fun e => match e with EvSpawn p n => [(p, n)] | _ => [] end) ev.
+
+(* the supervisor was killed from outside (Node.Kill): not an operation of the model *)
+Definition killed (o : eobs) : bool := negb (e_alive o) && (e_reason o =? RKill).
+
+Definition corr_e2e_obs (c : ecase) (o : eobs) : bool :=
+  if negb (e_settled o) || killed o then true else
+  let s := run (ec_cfg c) (ec_children c) 0 (firstn (e_nops o) (ec_ops c)) in
+  Bool.eqb (alive s) (e_alive o) &&
+  (if alive s then view_eqb (m_view (ec_cfg c) (m s)) (e_view o) else exitreason s =? e_reason o).
+Definition corr_e2e (c : ecase) : bool :=
+  forallb (corr_e2e_obs c) (ec_obs c) &&
+  (existsb killed (ec_obs c) ||
+   list_eqb pair_eqb (spawns_of (events (run (ec_cfg c) (ec_children c) 0 (ec_ops c)))) (ec_spawns c)).
+
+(* the property on the implementation's observations: the specification walks over the operations
+   (a group restart / shutdown completes as soon as the specification itself sees all children of the
+   range down) and must agree with every settled observation *)
+Fixpoint a_walk (k : config) (a : astate) (chs : list (Z * Z)) (ops : list op) : astate :=
+  match ops with
+  | [] => a_quiesce a
+  | o :: tl => a_walk k (a_step k (a_quiesce a) chs o) chs tl
+  end.
+Definition spec_e2e_obs (c : ecase) (o : eobs) : bool :=
+  if negb (e_settled o) || killed o then true else
+  let a := a_walk (ec_cfg c) (a_init (ec_cfg c) (ec_children c)) (ec_spawns c) (firstn (e_nops o) (ec_ops c)) in
+  if e_alive o then a_normal a && view_eqb (a_view a) (e_view o)
+  else match a_phase a with ADead w => w =? e_reason o | _ => false end.
+Definition spec_e2e_prescribed (c : ecase) : bool := forallb (spec_e2e_obs c) (ec_obs c).
+
+(* C09 end to end: if the specification says the intensity was exceeded, the monitor of the supervisor saw
+   the exceeded reason (implied by spec_e2e_prescribed; kept separate for the C09 check) *)
+Definition spec_e2e_exceeded (c : ecase) : bool :=
+  forallb (fun o => if negb (e_settled o) || killed o then true else
+     let a := a_walk (ec_cfg c) (a_init (ec_cfg c) (ec_children c)) (ec_spawns c) (firstn (e_nops o) (ec_ops c)) in
+     match a_phase a with
+     | ADead w => if w =? RExceeded then negb (e_alive o) && (e_reason o =? RExceeded) else true
+     | _ => negb (negb (e_alive o) && (e_reason o =? RExceeded))
+     end) (ec_obs c).
+
+(* C10 end to end: once the supervisor is gone (any reason, also killed) no child it started is alive *)
+Definition spec_e2e_no_orphans (c : ecase) : bool :=
+  forallb (fun o => e_alive o || negb (e_settled o) || Nat.eqb (e_orphans o) 0) (ec_obs c).
+
+Definition premise_e2e_settled (c : ecase) : bool :=
+  negb (is_nil (ec_obs c)) && forallb e_settled (ec_obs c).
+Definition premise_e2e_dead (c : ecase) : bool := existsb (fun o => negb (e_alive o)) (ec_obs c).
+Definition premise_e2e_exceeded (c : ecase) : bool :=
+  existsb (fun o => negb (e_alive o) && (e_reason o =? RExceeded)) (ec_obs c).
